@@ -1961,7 +1961,7 @@ class Rule(metaclass=LogicalType):
                     )
                 except Exception as e:
                     error = exc.ParseError(
-                        item=i, value=value[i], type=arg_type, origin_exc=e
+                        item=i, value=item, type=arg_type, origin_exc=e
                     )
                     if options.invalid_items == options.EXCLUDE:
                         context.collect_waring(error.formatted_message)
